@@ -52,7 +52,11 @@ CLAIMED = {
              "piece list of length <=6 (quick) / <=8 (thorough) over {'', 'a', 'bc'} x sizes 2-8 against the real "
              "TemplateStream; generated template sets (extends/include/import/macros/loops) through render, generate, "
              "stream, buffered stream, dump (text, utf-8, path, write-only target), module str, render_async, "
-             "generate_async, with the real piece lists fed to the Lean model for the expected chunking.",
+             "generate_async, with the real piece lists fed to the Lean model for the expected chunking. Markup "
+             "family: the same with autoescape on (Environment flag, select_autoescape, callable, autoescape section), "
+             "where one chunk mixes Markup expression output with plain template data containing < > & ' \": every "
+             "short Markup/str piece list x sizes 2-8 on the real TemplateStream, and markup-rich generated template "
+             "sets through all entry points plus buffered stream join and every dump target fed from buffered streams.",
         note="Trusted: Lean kernel; hand model Model/Stream.lean (tied by correspondence); str.join, file objects and "
              "codecs are Python's; render = concat(generate) etc. are established by correspondence, not by proof.",
         design_ref="§5 C10",
